@@ -7,4 +7,14 @@ ids="$@"
 [ -z "$ids" ] && ids=$(python3 -c "import json;print(' '.join(c['property_id'] for c in json.load(open('MANIFEST.json'))['checks']))")
 rc=0
 for id in $ids; do ./check $id > work/refresh_$id.log 2>&1 || rc=1; tail -1 work/refresh_$id.log | cut -c1-200; done
+# every evidence file must describe a complete run (all obligations discharged)
+python3 - <<'PY' || rc=1
+import json,glob,sys
+bad=[]
+for f in sorted(glob.glob('/verif/evidence/*.json')):
+    c=json.load(open(f))['coverage']
+    if c['discharged']!=c['obligations'] or c['obligations']<1: bad.append((f,c['discharged'],c['obligations']))
+for b in bad: print('INCOMPLETE EVIDENCE',b)
+sys.exit(1 if bad else 0)
+PY
 exit $rc
